@@ -336,7 +336,21 @@ def r096(prog, chk):
             early = [s for s in ast.walk(lp) if isinstance(s, (ast.Break, ast.Return))]
             # `continue` only for masters that do not have the glyph
             conts = [s for s in ast.walk(lp) if isinstance(s, ast.Continue)]
-            okc = all(any(isinstance(x, ast.Compare) and isinstance(x.ops[0], (ast.Is, ast.NotIn)) for g in conds(prog, m, s) for x in ast.walk(g.test)) for s in conts)
+            def lacks_glyph_only(st):
+                par = ix.parent(st)
+                if not isinstance(par, ast.If) or st not in par.body:
+                    return False
+                t = par.test
+                return isinstance(t, ast.Compare) and len(t.ops) == 1 and ((isinstance(t.ops[0], ast.Is) and A.is_const(t.comparators[0], None)) or isinstance(t.ops[0], ast.NotIn))
+            okc = all(lacks_glyph_only(s) for s in conts)
+            # the operation itself is not applied under a per-master condition other than "this master has the glyph"
+            for c_ in A.calls_in(lp):
+                ts, how = prog.resolve_callee(m, c_.func)
+                if any(isinstance(t_, FuncInfo) and t_.module is m.module and t_.cls is None for t_ in ts) or (isinstance(c_.func, ast.Attribute) and c_.func.attr in ("decomposeAndRemove", "removeComponent")):
+                    extra = [g for g in may_conds(prog, m, c_) if g.kind in ("if", "boolop") and any(a is lp for a in ix.ancestors(g.test))
+                             and not (isinstance(g.test, ast.Compare) and len(g.test.ops) == 1 and isinstance(g.test.ops[0], (ast.Is, ast.IsNot, ast.In, ast.NotIn)))]
+                    if extra:
+                        okc = False
             ok = not early and okc
             why = "no break / return inside; masters are only skipped when they lack the glyph"
         chk.ob("R09.6", f"{m.short}|operation applied to every master that has the glyph", ok, where(m), detail=why,
@@ -350,6 +364,12 @@ def r096(prog, chk):
 
 
 MUTANTS = [
+    M("interpolatable flatten skips masters whose own glyph set shows nothing nested (seeded C09b)", "ufo2ft/filters/flattenComponents.py", "FlattenComponentsIFilter.filter",
+      "if glyph is not None:\n    flattened |= _flattenGlyphComponents(glyph, interpolatedLayer or glyphSet)",
+      "if glyph is None or not _haveNestedComponents(glyph, glyphSet):\n    continue\nflattened |= _flattenGlyphComponents(glyph, interpolatedLayer or glyphSet)", rule="R09.6"),
+    M("interpolatable flatten applied only to masters that look nested", "ufo2ft/filters/flattenComponents.py", "FlattenComponentsIFilter.filter",
+      "if glyph is not None:\n    flattened |= _flattenGlyphComponents(glyph, interpolatedLayer or glyphSet)",
+      "if glyph is not None and _haveNestedComponents(glyph, glyphSet):\n    flattened |= _flattenGlyphComponents(glyph, interpolatedLayer or glyphSet)", rule="R09.6"),
     M("mixed glyphs decided from the first master only", "ufo2ft/preProcessor.py", "TTFInterpolatablePreProcessor.process",
       "{gname for glyphSet in self.glyphSets for gname, glyph in glyphSet.items() if len(glyph) > 0 and glyph.components}",
       "{gname for glyphSet in self.glyphSets[:1] for gname, glyph in glyphSet.items() if len(glyph) > 0 and glyph.components}", rule="R09.1"),
